@@ -36,7 +36,7 @@ EXHAUSTIVE = {"what": "all conversion sequences of length 1..3 over 5 formats fo
 
 
 def streams(ctx):
-    return [("core", ctx.scale(100, 1200)), ("probe", ctx.scale(30, 300))]
+    return [("core", ctx.scale(200, 1500)), ("probe", ctx.scale(80, 500))]
 
 
 def gen_case(ctx, stream, idx):
@@ -46,8 +46,13 @@ def gen_case(ctx, stream, idx):
                              with_return=False, doc_kinds=("plain", "plain", "punct"))
     # probe: required parameters, and str defaults with a double quote / backslash / backtick (which the docstring hop
     # cannot carry - a recorded finding - but every other hop must)
-    return irgen.rand_ir(r, nparams=r.randint(1, 4), type_kinds=CORE_T + ("str",), default_kinds=CORE_D + ("absent", "strbad"),
-                         with_return=r.random() < 0.3)
+    ir = irgen.rand_ir(r, nparams=r.randint(1, 4), type_kinds=CORE_T + ("str",), default_kinds=CORE_D + ("absent", "strbad"),
+                       with_return=r.random() < 0.3)
+    if idx % 2 == 0:
+        # every second probe interface carries one of the hard str defaults for certain
+        ir["params"]["quoted"] = {"doc": irgen.rand_doc(r, stop=False), "typ": r.choice(("str", "str", "Optional[str]")),
+                                  "default": r.choice(irgen.STRBAD)}
+    return ir
 
 
 def one_hop(ir, fmt):
